@@ -3,6 +3,11 @@ C10, layer byte-limit clause (`C10_layer_bytes`): an image load never exposes a 
 byte limit in any view, and never writes more than that many bytes of it to disk.  Stated on the image model
 (`Model/Overlay.lean`, `Model/OverlayImage.lean`); the tie to `image.FromV1Image` is the C04 correspondence stream
 (`c04gen` emits file sizes L-1, L, L+1 with `Config.MaxFileBytes = L`).
+
+What these theorems do NOT say: what a view shows IN PLACE of a rejected file.  `C10_layer_bytes*` only bound the sizes of the
+file nodes that exist.  The loader leaves no node for a rejected entry, so an older layer's (small) file of the same path
+stays visible — consistent with C10, wrong for C04, whose specification reads the rejected entry as a whiteout of its path
+(Spec/OverlayRejected.lean; finding C04/rejected-entry-shows-older-file).
 -/
 import Scalibr.Model.OverlayImage
 import Scalibr.Proofs.OverlayLoad
